@@ -32,7 +32,7 @@ type Act struct {
 	K    []byte `json:"k,omitempty"`
 	V    []byte `json:"v,omitempty"`
 	End  []byte `json:"end,omitempty"`
-	N    int    `json:"n,omitempty"` // txn: expected counter digit; poll: log server (message size limit) index; compact: entries to keep
+	N    int    `json:"n,omitempty"`   // txn: expected counter digit; poll: log server (message size limit) index; compact: entries to keep
 	Off  int    `json:"off,omitempty"` // other-read: how far behind the leader's applied index the other follower cluster starts reading
 }
 
